@@ -175,7 +175,8 @@ static int run_heap(int argc, char** argv) {
 
 // ================================================================================================ pools (C18)
 struct Region { void* p; size_t n; int rid; bool live; };
-struct PoolCtx { int pid; std::vector<Region> regs; long calls = 0; long fail_from = -1, fail_to = -1; char* fixed_buf = nullptr; size_t fixed_size = 0; };
+struct PoolCtx { int pid; std::vector<Region> regs; long calls = 0; long fail_from = -1, fail_to = -1; char* fixed_buf = nullptr; size_t fixed_size = 0;
+                 long frees = 0, free_fail_at = -1; };      // free_fail_at: the k-th raw_free call reports an error (the region IS released all the same: the pool must hand back the others too)
 static long g_refused_in_call = 0;       // raw-allocation refusals since the current API call started: an entry point that keeps re-asking a refusing callback never reports the failure
 static PoolCtx PC[4]; static int g_next_rid;
 static void* raw_alloc(intptr_t pool_id, size_t& bytes) {
@@ -194,7 +195,7 @@ static int raw_free(intptr_t pool_id, void* ptr, size_t bytes) {
     for (auto& r : c.regs) if (r.live && r.p == ptr) { rid = r.rid; r.live = false; break; }
     ev("RF", {{"p", c.pid}, {"rid", rid}});                 // rid 0 = a region this pool never obtained (or returned twice): unexplainable
     if (!c.fixed_buf) ::munmap(ptr, bytes);
-    return 0;
+    return ++c.frees == c.free_fail_at ? 1 : 0;
 }
 struct PBlk { void* p = nullptr; size_t size = 0; int id = 0; int pool = 0; };
 static void pool_sequence(unsigned long seed, const std::string& mode) {
@@ -227,6 +228,9 @@ static void pool_sequence(unsigned long seed, const std::string& mode) {
         else if (op < 86 && pool[pi]) { for (auto& x : tab) if (x.p && x.pool == pi) x.p = nullptr; ev("PR", {{"p", pi}}); rml::pool_reset(pool[pi]); }       // the blocks are gone from the moment reset is called
     }
     if (failing && failed_once) for (int i = 0; i < 2; i++) if (pool[i] && !PC[i].fixed_buf) { PC[i].fail_from = PC[i].fail_to = -1; void* p = rml::pool_malloc(pool[i], 3000); ev("Rec", {{"rec", p != nullptr}}); if (p) rml::pool_free(pool[i], p); }
+    // mode freefail: each pool gets a few more raw regions (large objects), then one of the raw_free calls of pool_destroy reports an error - every region must be handed back all the same
+    if (mode == "freefail") for (int i = 0; i < 2; i++) if (pool[i]) { for (int j = 0; j < 3; j++) { void* p = rml::pool_malloc(pool[i], 2200000 + j * 70000); if (p) { int id = ++next_id; ev("PA", {{"p", i}, {"id", id}}, {{"lo", (u64)(uintptr_t)p}, {"hi", (u64)(uintptr_t)p + 2200000 + j * 70000}}); } }
+        PC[i].frees = 0; PC[i].free_fail_at = 1 + (long)(rng() % 3); }
     for (int i = 0; i < 2; i++) if (pool[i]) { ev("PR", {{"p", i}}); rml::pool_destroy(pool[i]); ev("PD", {{"p", i}}); if (PC[i].fixed_buf) ::munmap(PC[i].fixed_buf, PC[i].fixed_size); }
 }
 static int run_pool(int argc, char** argv) {
